@@ -19,6 +19,33 @@ CLAIMS = {
         ref='5 (C03), 4 (A3, A6)'),
 }
 
+CLAIMS['C05'] = dict(
+    technique='custom static analysis: binding rule on out-parameters, dominance/reachability in a configuration-specialised CFG, constant-writer check',
+    text=('Decides structural necessary conditions of P2BIN\'s image: the -f filter is applied to the CPU id that '
+          'ReadRecordHeader() returned; divisors non-zero; the pre-fill dominates every record copy; the overlap warning '
+          'is control-dependent exactly on AddChunk()\'s overlap result; the lane divisor only takes 1/2/4; every '
+          'measured input of the pre-fill is computed under every option configuration. Byte-level window/lane/address '
+          'arithmetic is not decided.'),
+    note='Trusted: clang 14 front end/CFG, CMake compile database, generated message-number headers.',
+    ref='5 (C05)')
+CLAIMS['C06'] = dict(
+    technique='custom static analysis: per-format specialised reaching definitions on the CFG, table agreement, clang format checker',
+    text=('Decides: for each of the 10 hex formats every checksum handed to an output call is started by a plain '
+          'assignment within the same line/record iteration; every header id a code generator can set has a family '
+          'descriptor with a concrete default format; printf-family calls have a conversion per argument; divisors are '
+          'non-zero. Textual validity and decoded contents of the hex output are not decided.'),
+    note='Trusted: clang 14 front end/CFG and -Wformat checker; enumerators of the hex formats as the finite variant set.',
+    ref='5 (C06), 4 (A10)')
+CLAIMS['C07'] = dict(
+    technique='custom static analysis: reader/writer conformance on CFG paths (iteration-local dominance), binding rules',
+    text=('Decides: PBIND writes each field it read with the same width from the same unmodified variable, every field '
+          'read for a kept record is written, the payload loop writes what it read; WriteRecordHeader()\'s short-form '
+          'condition equals what ReadRecordHeader() reconstructs; PLIST prints the variables bound to the record header '
+          'and field reads and accumulates totals with += under the record\'s segment; format/argument agreement. '
+          'Per-record listing values are not decided.'),
+    note='Trusted: clang 14 front end/CFG and -Wformat checker.',
+    ref='5 (C07), 4 (A8)')
+
 NA_REASONS = {}
 
 
